@@ -161,6 +161,39 @@ def arrange(factors, order, left, use_div):
     return acc
 
 
+def canonical_alias(t):
+    """for a pure product/quotient/power tree over named (library or prefixed) units: the type the statement demands, spelled by another route --
+    UnitProductT over each distinct unit raised to its net exact exponent (algebraically equal products/powers produce the identical type)"""
+    net, order = {}, []
+
+    def rec(x, e):
+        k = x["k"]
+        if k in ("leaf", "pre"):
+            key = "au::%s" % x["n"] if k == "leaf" else "au::%s<au::%s>" % (x["p"], x["n"])
+            if key not in net:
+                net[key] = F(0); order.append(key)
+            net[key] += e
+            return True
+        if k == "mul":
+            return rec(x["a"], e) and rec(x["b"], e)
+        if k == "div":
+            return rec(x["a"], e) and rec(x["b"], -e)
+        if k == "pow":
+            return rec(x["a"], e * F(x["n"], x["d"]))
+        return False
+    if not rec(t, F(1)):
+        return None
+    parts = []
+    for key in order:
+        e = net[key]
+        if e == 0:
+            continue
+        parts.append(key if e == 1 else "au::UnitPowerT<%s, %d, %d>" % (key, e.numerator, e.denominator))
+    if not parts:
+        return None
+    return "au::UnitProductT<%s>" % ", ".join(parts)
+
+
 def alias_spelling(factors):
     parts = []
     for n, (en, ed) in factors:
@@ -191,6 +224,9 @@ def prepare(c):
         body.append('static_assert(std::is_same<au::detail::MagT<E>, %s>::value, "magnitude");' % model.spell_mag(u.mag))
         if mode != "unit":
             body.append('static_assert(std::is_same<E, %s>::value, "spelling changes the unit type");' % units.assoc(units.render_unit(t)))
+        ca = canonical_alias(t) if kind == "dimmag" else None
+        if ca is not None:
+            body.append('static_assert(std::is_same<E, %s>::value, "algebraically equal product/power of the same named units is not the identical type");' % ca)
         trees = [t]
         nleaves = len(set(units.leaf_spelling(x) for x in units.leaves(t)))
         nt = nleaves >= 3 or any(v.denominator != 1 for v in list(u.dim.values()) + list(u.mag.values())) or "scale" in json.dumps(t) or kind == "named"
